@@ -100,6 +100,36 @@ static void n_case(uint64_t idx, void *ctx)
     mc_nontrivial();
     mc_outcome((uint64_t) (WIFEXITED(st) ? WEXITSTATUS(st) : 1000 + WTERMSIG(st)) * 7 + (uint64_t) r.ret_ok);
 }
+/* ------------------------------------------------------------------ show(NULL object, name, buffer, indent): the line "<indent blanks>(spif_X_t) name:  NULL" is built in a fixed scratch array - long names and deep indents together */
+typedef spif_str_t (*show_fn)(void *, spif_charptr_t, spif_str_t, size_t);
+static const struct { const char *name; show_fn fn; } SHOWS[] = {
+    { "spif_obj_show", (show_fn) spif_obj_show }, { "spif_str_show", (show_fn) spif_str_show }, { "spif_ustr_show", (show_fn) spif_ustr_show }, { "spif_mbuff_show", (show_fn) spif_mbuff_show },
+    { "spif_objpair_show", (show_fn) spif_objpair_show }, { "spif_tok_show", (show_fn) spif_tok_show }, { "spif_url_show", (show_fn) spif_url_show }, { "spif_regexp_show", (show_fn) spif_regexp_show }, { "spif_socket_show", (show_fn) spif_socket_show },
+};
+#define NSHOWS ((int) (sizeof SHOWS / sizeof SHOWS[0]))
+static const int SHP[][2] = { { 0, 4 }, { 0, 5000 }, { 64, 4 }, { 4000, 4 }, { 4000, 200 }, { 2000, 3000 }, { 3900, 190 }, { 4090, 50 }, { 100, 4090 }, { 8, 4080 } };          /* (indent, length of the name) */
+#define NSHP ((int) (sizeof SHP / sizeof SHP[0]))
+static void sn_desc(uint64_t idx, void *ctx, char *b, size_t n) { (void) ctx; snprintf(b, n, "%s(NULL, name of %d characters, %s, indent %d)", SHOWS[idx / NSHP / 2].name, SHP[idx / 2 % NSHP][1], idx % 2 ? "a buffer that holds \"x\"" : "NULL buffer", SHP[idx / 2 % NSHP][0]); }
+static void sn_case(uint64_t idx, void *ctx)
+{
+    int f = (int) (idx / NSHP / 2), ind = SHP[idx / 2 % NSHP][0], nl = SHP[idx / 2 % NSHP][1], withbuf = (int) (idx % 2); (void) ctx;
+    const char *shape = ind + nl + 40 > 4096 ? "indent and name together exceed the scratch line" : "indent and name fit in the scratch line"; mc_set_shape(shape);
+    char *name = malloc((size_t) nl + 1); memset(name, 'n', (size_t) nl); name[nl] = 0;
+    spif_str_t b0 = withbuf ? spif_str_new_from_ptr((spif_charptr_t) "x") : (spif_str_t) NULL;
+    spif_str_t r = SHOWS[f].fn(NULL, (spif_charptr_t) name, b0, (size_t) ind);
+    if (!r) FAIL(SHOWS[f].name, "model:return", shape, "show of a NULL object returned no buffer");
+    else {
+        if (withbuf && r != b0) FAIL(SHOWS[f].name, "model:return", shape, "show did not return the caller's buffer");
+        const char *t = r->s ? (char *) r->s : ""; size_t tl = strlen(t);
+        if ((size_t) r->len != tl) FAIL(SHOWS[f].name, "invariant:len-differs-from-strlen", shape, "the buffer has len=%ld, its text %zu characters", (long) r->len, tl);
+        if (tl > 4096 + 1) FAIL(SHOWS[f].name, "model:too-long", shape, "the line for a NULL object has %zu characters", tl);
+        if (ind + nl + 40 <= 4096 && (!strstr(t, "NULL") || strncmp(t + withbuf + ind, "(spif_", 6))) FAIL(SHOWS[f].name, "model:value", shape, "the line does not read <indent>(spif_X_t) name:  NULL");
+        spif_str_del(r);
+    }
+    free(name);
+    mc_nontrivial();
+    mc_outcome(idx % (NSHP * 2));
+}
 int main(int argc, char **argv)
 {
     mc_init("C16", argc, argv);
@@ -108,5 +138,6 @@ int main(int argc, char **argv)
             "x runtime debug levels {0,1,3} and level 1 with output silenced; rows of functions with position parameters are repeated with the position at 40 and -1; %d rows are not in the pinned table; unsupported: %s", N_NULL_CASES, unpinned, NULL_UNSUPPORTED);
     mc_stat_add("unpinned_rows", unpinned);
     mc_e2_level("nullmatrix", 3, (uint64_t) N_NULL_CASES * NCELL, n_case, n_desc, NULL);
+    mc_e2_level("show_null_sizes", 4096, (uint64_t) NSHOWS * NSHP * 2, sn_case, sn_desc, NULL);
     return mc_finish();
 }
